@@ -71,16 +71,25 @@ def extract(config='full', root=None, quiet=True):
     th = tree_hash(root)
     fpath = os.path.join(CACHE, 'facts', '%s.%s.v%d.json' % (th, config, FACTS_VERSION))
     info = {'tree_sha256': th, 'config': config, 'repo': root, 'cached': True, 'extract_s': 0.0}
-    if not os.path.exists(fpath):
-        info['cached'] = False
-        t0 = time.time()
-        with open(os.path.join(CACHE, 'lock'), 'w') as lk:
-            fcntl.flock(lk, fcntl.LOCK_EX)
-            if not os.path.exists(fpath):
-                _run_driver(root, config, th, fpath, quiet)
-        info['extract_s'] = round(time.time() - t0, 2)
-    with open(fpath) as fh:
-        facts = json.load(fh)
+    facts = None
+    for attempt in range(3):
+        if not os.path.exists(fpath):
+            info['cached'] = False
+            t0 = time.time()
+            with open(os.path.join(CACHE, 'lock'), 'w') as lk:
+                fcntl.flock(lk, fcntl.LOCK_EX)
+                if not os.path.exists(fpath):
+                    _run_driver(root, config, th, fpath, quiet)
+            info['extract_s'] = round(time.time() - t0, 2)
+        try:
+            os.utime(fpath)              # least-recently-used eviction: a file in use is young
+            with open(fpath) as fh:
+                facts = json.load(fh)
+            break
+        except FileNotFoundError:
+            continue                     # evicted by a concurrent run between the existence test and the read: extract again
+    if facts is None:
+        raise MachineryError('fact file %s kept disappearing' % fpath)
     if facts.get('tree_sha256') != th:
         raise MachineryError('stale fact file %s' % fpath)
     return facts, info
@@ -128,5 +137,10 @@ def _run_driver(root, config, th, fpath, quiet):
     # keep the cache bounded
     fdir = os.path.dirname(fpath)
     files = sorted((os.path.getmtime(os.path.join(fdir, f)), f) for f in os.listdir(fdir) if f.endswith('.json'))
-    for _, f in files[:-40]:
-        os.remove(os.path.join(fdir, f))
+    now = time.time()
+    for mt, f in files[:-120]:
+        if now - mt > 900:               # never evict what a concurrent run may be about to read
+            try:
+                os.remove(os.path.join(fdir, f))
+            except FileNotFoundError:
+                pass
